@@ -3,6 +3,7 @@ import ast
 
 from ..core import RuleResult, need
 from ..cfg import cfg_of, desugar_bool_returns
+from .checker_blocks import check_item_func, extend_func
 from ..flow import flow_of, path_base, denotes
 from ..astutil import (src, call_attr, call_name, compare_parts, names_in, is_name, path_of, returns_of)
 
@@ -36,7 +37,7 @@ def _nodes_calling(cfg, pred):
 
 def rule_p1(repo):
     res = RuleResult('C02.P1', 'a cited step is read only after the identifier test and a position guard for the citing step', floor=2)
-    func = repo.func(THEORY, 'Theory._check_proof_item')
+    func = check_item_func(repo)
     cfg = cfg_of(func.node)
     flow = flow_of(func.node)
     params = func.params()
@@ -128,7 +129,7 @@ def _only_raises(cfg, node):
 
 def rule_p2(repo):
     res = RuleResult('C02.P2', 'gaps are refused when disallowed, reported when allowed, and the flag reaches every nested check', floor=5)
-    func = repo.func(THEORY, 'Theory._check_proof_item')
+    func = check_item_func(repo)
     cfg = cfg_of(func.node)
     params = func.params()
     seq = params[2]
@@ -210,7 +211,7 @@ def rule_p2(repo):
 
 def rule_p3(repo):
     res = RuleResult('C02.P3', 'a stated sequent is accepted only if the derived one proves it', floor=4)
-    func = repo.func(THEORY, 'Theory._check_proof_item')
+    func = check_item_func(repo)
     cfg = cfg_of(func.node)
     seq = func.params()[2]
     assigns = [n for n in cfg.nodes if n.kind == 'stmt' and isinstance(n.ast, ast.Assign) and any(is_name(t, 'res_th') for t in n.ast.targets)]
@@ -386,24 +387,23 @@ def rule_p6(repo):
     kinds = sorted(m for m in ext_cls.methods if m.startswith('is_'))
     need(len(kinds) >= 5, 'kernel/extension.py: fewer than 5 kind predicates on Extension')
     for fn in ('Theory.unchecked_extend', 'Theory.checked_extend'):
-        func = repo.func(THEORY, fn)
+        func = extend_func(repo, fn)
         cfg = cfg_of(func.node)
         tested = {}
         for n in cfg.test_nodes():
             if isinstance(n.ast, ast.Call) and call_attr(n.ast) in kinds:
-                tested[call_attr(n.ast)] = n
+                tested.setdefault(call_attr(n.ast), []).append(n)
         for k in kinds:
             res.add('%s :: %s :: kind(%s)' % (THEORY, fn, k), k in tested,
                     'handled' if k in tested else 'extension kind %s has no branch' % k, func.loc, nontrivial=False)
         # fallthrough raises: from the false edge of the last kind test no normal continuation
         adds = _nodes_calling(cfg, lambda c: call_name(c) == 'self.add_theorem')
         if 'is_theorem' in tested:
-            t = tested['is_theorem']
-            ok = bool(adds) and all(cfg.path_avoiding(a, skip_edges={(t.id, 'true')}) is None for a in adds)
+            ok = bool(adds) and all(cfg.path_avoiding(a, skip_edges={(t.id, 'true') for t in tested['is_theorem']}) is None for a in adds)
             res.add('%s :: %s :: add_theorem-only-for-theorems' % (THEORY, fn), ok,
                     'add_theorem dominated by is_theorem()' if ok else 'add_theorem reachable for a non-theorem extension', func.loc)
         # unknown kind -> raise: all kind tests false leads to raise
-        all_false = {(n.id, 'true') for n in tested.values()}
+        all_false = {(n.id, 'true') for ns in tested.values() for n in ns}
         starts = [n for n in cfg.nodes_of_kind('iter')]
         ok = True
         for it in starts:
@@ -491,7 +491,7 @@ def rule_p8(repo):
 
 def rule_p9(repo):
     res = RuleResult('C02.P9', 'a step that the checker skips cannot carry a stated theorem for later steps to cite', floor=1)
-    func = repo.func(THEORY, 'Theory._check_proof_item')
+    func = check_item_func(repo)
     cfg = cfg_of(func.node)
     seq = func.params()[2]
     empties = [n for n in cfg.test_nodes() if (lambda cp: cp and cp[0] is ast.Eq and path_of(cp[1]) == seq + '.rule' and
